@@ -30,8 +30,8 @@ func init() {
 				n = 120000
 			}
 			return fw.Meta{N: n, Level: "exploration", Chunk: 100, CaseTimeoutS: 60, MinNT: 500,
-				Rule:        "seeded programs of 1..200 calls over all 8 mutating/reading methods (+Size, EstimatedSizeInBytes, SStableIterator) on universes of 3 or 200 keys (incl. the empty key), values empty/short/long, nil key/value arguments; every result compared with a map-with-tombstones model; then Flush or FlushWithTombstones into a scratch dir and read back through the real table reader (Scan + Get). Non-trivial: program contains a delete/tombstone of a present key, a re-add of a tombstoned key and a flush; distinct by hash of the call sequence",
-				MinObs:      map[string]int64{"calls_compared": 50000, "flush_readbacks": 1000, "tombstones_flushed_as_nil": 200, "nil_args_rejected": 100, "readd_after_tombstone": 200},
+				Rule:        "seeded programs of 1..200 calls over all 8 mutating/reading methods (+Size, EstimatedSizeInBytes, SStableIterator) on universes of 3 or 200 keys (incl. the empty key), values empty/short/long, nil key/value arguments; every result compared with a map-with-tombstones model; then Flush or FlushWithTombstones into a scratch dir and read back through the real table reader (Scan + Get). Non-trivial: program contains a delete/tombstone of a present key, a re-add of a tombstoned key and a flush; distinct by hash of the call sequence Every fifth program takes all its keys as prefixes of ONE caller buffer (same start address, capacity clipped).",
+				MinObs:      map[string]int64{"universes_of_prefixes_of_one_buffer": 100, "calls_compared": 50000, "flush_readbacks": 1000, "tombstones_flushed_as_nil": 200, "nil_args_rejected": 100, "readd_after_tombstone": 200},
 				Assumptions: []string{"size estimate is only required not to wrap (bounded by 4x the bytes ever passed in)"},
 			}
 		},
